@@ -6,12 +6,14 @@
 package cssim
 
 import (
+	"bytes"
 	"fmt"
 	"sort"
 	"strings"
 	"testing"
 	"testing/synctest"
 	"time"
+	"verifsim/facesim"
 
 	"github.com/named-data/ndnd/fw/core"
 	"github.com/named-data/ndnd/fw/table"
@@ -31,7 +33,7 @@ type Config struct {
 type Op struct {
 	Op      string `json:"op"` // insert lookup advance cap pit
 	Name    string `json:"name,omitempty"`
-	FreshMs int    `json:"fresh_ms,omitempty"` // insert: -1 = no FreshnessPeriod
+	FreshMs int    `json:"fresh_ms,omitempty"` // insert: -1 = no FreshnessPeriod; -2..-6 = a period of 9223372036855 .. 2^64-1 ms
 	Var     int    `json:"var,omitempty"`      // insert: content variant
 	CBP     bool   `json:"cbp,omitempty"`
 	MBF     bool   `json:"mbf,omitempty"`
@@ -80,6 +82,9 @@ func (Engine) Generate(prop string, r *kit.Rand, tier string) *kit.Scenario[Conf
 		switch r.Weighted([]int{40, 35, 14, 5, 6}) {
 		case 0:
 			o := Op{Op: "insert", Name: genName(r, pool), FreshMs: kit.Pick(r, []int{-1, 0, 1, 50, 200, 200, 1000, 5000}), Var: r.Intn(3)}
+			if r.Chance(0.03) {
+				o.FreshMs = -2 - r.Intn(5) // a huge period (see mkData)
+			}
 			for o.Name == "/" {
 				o.Name = genName(r, pool)
 			}
@@ -212,6 +217,11 @@ func (Engine) run(ctx *kit.Ctx, sc *kit.Scenario[Config, Op], res *kit.Result) {
 	}
 	mkData := func(name string, freshMs, v int) (*spec.Data, []byte) {
 		cfg := &ndn.DataConfig{ContentType: utils.IdPtr(ndn.ContentTypeBlob)}
+		hugeMs := uint64(0)
+		if freshMs <= -2 {
+			hugeMs = []uint64{9223372036855, 1 << 53, 1<<63 - 1, 1 << 63, 1<<64 - 1}[(-freshMs-2)%5]
+			freshMs = 3600000
+		}
 		if freshMs >= 0 {
 			cfg.Freshness = utils.IdPtr(time.Duration(freshMs) * time.Millisecond)
 		}
@@ -220,6 +230,20 @@ func (Engine) run(ctx *kit.Ctx, sc *kit.Scenario[Config, Op], res *kit.Result) {
 			panic("harness: MakeData: " + err.Error())
 		}
 		w := ed.Wire.Join()
+		if hugeMs != 0 {
+			// the FreshnessPeriod rewritten on the wire (every enclosing length re-encoded, digest signature
+			// recomputed): a period that the packet format allows and a nanosecond count in 63 bits cannot hold
+			pat := []byte{0x19, 8, byte(hugeMs >> 56), byte(hugeMs >> 48), byte(hugeMs >> 40), byte(hugeMs >> 32), byte(hugeMs >> 24), byte(hugeMs >> 16), byte(hugeMs >> 8), byte(hugeMs)}
+			done := false
+			for at := 0; at < 24 && !done; at++ {
+				if g := facesim.Mutate(w, "setnum+fix", at, hugeMs); bytes.Contains(g, pat) {
+					w, done = g, true
+				}
+			}
+			if !done {
+				panic("harness: FreshnessPeriod not found in the encoded Data")
+			}
+		}
 		p, _, err := spec.ReadPacket(enc.NewBufferReader(append([]byte(nil), w...)))
 		if err != nil || p.Data == nil {
 			panic("harness: ReadPacket")
@@ -253,6 +277,10 @@ func (Engine) run(ctx *kit.Ctx, sc *kit.Scenario[Config, Op], res *kit.Result) {
 			stale := now()
 			if o.FreshMs > 0 {
 				stale += time.Duration(o.FreshMs) * time.Millisecond
+			}
+			if o.FreshMs <= -2 {
+				stale = 1 << 62 // fresh for longer than any run lasts
+				ctx.Probe("freshness-period-beyond-63-bit-nanoseconds")
 			}
 			if en := model[o.Name]; en != nil {
 				en.wire, en.staleAt, en.touched = w, stale, clock
